@@ -224,9 +224,9 @@ SKETCHES = ["OneCoreDisk", "QuarterDisk", "HalfDisk", "FourCoreDisk", "WrappedDi
             "QuarterSplineRing", "HalfSplineRing", "SplineRing"]
 
 
-def _make_sketch(kind, rng=None):
+def _make_sketch(kind, rng=None, offset=0.0):
     u = (lambda a, b: rng.uniform(a, b)) if rng else (lambda a, b: (a + b) / 2)
-    c = np.array([u(-3, 3), u(-3, 3), u(-3, 3)])
+    c = np.array([u(-3, 3), u(-3, 3), u(-3, 3)]) + offset
     n = np.array([u(-1, 1), u(-1, 1), u(0.5, 2)])
     n = n / np.linalg.norm(n)
     e1 = np.cross(n, [1.0, 0.3, 0.2])
@@ -279,8 +279,20 @@ def _outer_faces(sketch, centre):
        note="shape-bounded: every disk / spline-round sketch class, one placement in the proof run and random placements in the bounded tier; "
             "the outer boundary is found from the sketch's own edges (an edge of one face only, not on a line through the centre)")
 def disk_sketch_addressing(ctx):
-    kind = ctx.case
-    sketch, centre, normal = _make_sketch(kind, None if ctx.symbolic else ctx.rng)
+    _disk_sketch_addressing(ctx, ctx.case, 0.0)
+
+
+@proof("C19", "disk-sketches/lofted-grid-and-core-shell/far-from-the-origin", cases=SKETCHES, level="S", samples=3,
+       functions=["classy_blocks.construct.flat.sketches.spline_round:HalfSplineDisk.grid", "classy_blocks.construct.flat.sketches.spline_round:QuarterSplineDisk.grid",
+                  "classy_blocks.construct.flat.sketches.disk:DiskBase.core", "classy_blocks.construct.flat.sketches.disk:DiskBase.shell"],
+       note="the same contract for a sketch of size about 1 centred 3e5 away from the origin in every coordinate (round 5: a core/shell "
+            "split by position with a relative tolerance)")
+def disk_sketch_addressing_far(ctx):
+    _disk_sketch_addressing(ctx, ctx.case, 3.0e5)
+
+
+def _disk_sketch_addressing(ctx, kind, offset):
+    sketch, centre, normal = _make_sketch(kind, None if ctx.symbolic else ctx.rng, offset)
     if kind == "Oval":
         centre = np.mean([np.asarray(p.position, dtype=float) for f_ in sketch.faces for p in f_.points], axis=0)
     height = normal * 0.8
@@ -292,8 +304,8 @@ def disk_sketch_addressing(ctx):
     for r, row in enumerate(shape.grid):
         for j, op in enumerate(row):
             base = np.asarray(sketch.grid[r][j].point_array, dtype=float)
-            ctx.prove("operation-at-grid[r][j]-stands-on-sketch-face-grid[r][j]", bool(np.allclose(np.asarray(op.bottom_face.point_array, dtype=float), base, atol=1e-9)), r=r, j=j)
-            ctx.prove("and-ends-above-that-face", bool(np.allclose(np.asarray(op.top_face.point_array, dtype=float), base + height, atol=1e-9)), r=r, j=j)
+            ctx.prove("operation-at-grid[r][j]-stands-on-sketch-face-grid[r][j]", bool(np.allclose(np.asarray(op.bottom_face.point_array, dtype=float), base, rtol=0, atol=1e-9 + 1e-15 * offset)), r=r, j=j)
+            ctx.prove("and-ends-above-that-face", bool(np.allclose(np.asarray(op.top_face.point_array, dtype=float), base + height, rtol=0, atol=1e-9 + 1e-15 * offset)), r=r, j=j)
     ctx.prove("operations-listed-in-grid-order", [id(o) for o in shape.operations] == [id(o) for row in shape.grid for o in row])
     # 2. core / shell = away from / on the outer boundary
     outer = _outer_faces(sketch, centre)
@@ -333,3 +345,42 @@ def tapered_stack_conformal(ctx):
                 if t + 1 < k:
                     Q = grid[t + 1][j][i].point_array
                     ctx.prove("shares-a-face-with-the-next-tier", And([ctx.eq(P[a + 4], Q[a], tol=1e-9) for a in range(4)]), t=t, j=j, i=i)
+
+
+@proof("C19", "MappedSketch/grid-follows-the-faces-after-merge-and-copy", cases=["merge-after-use", "copy-after-use", "merge-then-copy"], level="S", samples=1,
+       functions=["classy_blocks.construct.flat.sketches.mapped:MappedSketch.grid", "classy_blocks.construct.flat.sketches.mapped:MappedSketch.merge",
+                  "classy_blocks.construct.shape:LoftedShape.__init__", "classy_blocks.construct.stack:Stack.grid"],
+       note="executed contract: a mapped sketch is used (its grid read, a shape built on it), then merged with another one and / or copied and "
+            "moved; the grid of the sketch, of a shape and of a stack built afterwards address every face as it is now, each once (round 5: "
+            "a grid remembered from the first use)")
+def mapped_sketch_grid_after_merge(ctx):
+    def strip(x0, n):
+        pos = [[x0 + i, 0, 0] for i in range(n + 1)] + [[x0 + i, 1, 0] for i in range(n + 1)]
+        return cb.MappedSketch(pos, [[i, i + 1, n + 2 + i, n + 1 + i] for i in range(n)])
+
+    sketch = strip(0.0, 2)
+    _ = sketch.grid
+    first = cb.ExtrudedShape(sketch, 1.0)
+    ctx.prove("first-use/one-operation-per-face", len(first.operations) == 2)
+    if "merge" in ctx.case:
+        sketch.merge(strip(2.0, 2))
+    if "copy" in ctx.case:
+        sketch = sketch.copy().translate([0.0, 5.0, 0.0])
+    n = len(sketch.faces)
+    ctx.prove("faces-as-expected", n == (4 if "merge" in ctx.case else 2))
+    flat = [f_ for row in sketch.grid for f_ in row]
+    ctx.prove("sketch-grid-lists-every-face-once", [id(f_) for f_ in flat] == [id(f_) for f_ in sketch.faces])
+    shape = cb.ExtrudedShape(sketch, 1.0)
+    ops = [o for row in shape.grid for o in row]
+    ctx.prove("shape-grid-addresses-one-operation-per-face", len(ops) == n and len(shape.operations) == n)
+    ctx.prove("each-operation-stands-on-its-face-as-it-is-now",
+              len(ops) == n and all(bool(np.allclose(np.asarray(o.bottom_face.point_array, dtype=float), np.asarray(f_.point_array, dtype=float), atol=1e-12))
+                                    for o, f_ in zip(ops, sketch.faces)))
+    stack = cb.ExtrudedStack(sketch, 1.5, 3)
+    for k in range(3):
+        tier = [o for row in stack.grid[k] for o in row]
+        ctx.prove("stack-tier-addresses-one-operation-per-face", len(tier) == n, k=k)
+        ctx.prove("stack-tier-operations-above-their-faces",
+                  len(tier) == n and all(bool(np.allclose(np.asarray(o.bottom_face.center, dtype=float)[:2], np.asarray(f_.center, dtype=float)[:2], atol=1e-12))
+                                         for o, f_ in zip(tier, sketch.faces)), k=k)
+        ctx.prove("slice-along-the-stacking-axis-is-that-tier", sorted(id(o) for o in stack.get_slice(2, k)) == sorted(id(o) for o in tier), k=k)
